@@ -10,18 +10,18 @@ TYPES = {
     'AWT': 'cocls::awaiter', 'SPT': 'cocls::suspend_point<void>', 'SUBT': 'cocls::subscriber<int>', 'ULK': 'std::unique_lock<std::mutex>',
 }
 # std containers, resume and the returned suspend point are never translated: assumed-contract models in lib/model_pubsub.c
-BOUNDARY = [r'^std::vector<cocls::publisher<int>::queue::subreg_t', r'^std::deque<int', r'^std::vector<cocls::awaiter\*', r'^cocls::awaiter::resume\(',
+BOUNDARY = [r'^std::vector<cocls::publisher<int>::queue::subreg_t', r'^std::deque<int, std::allocator<int> >::', r'^std::vector<cocls::awaiter\*', r'^cocls::awaiter::resume\(',
             r'^cocls::suspend_point<void>::~suspend_point', r'__normal_iterator<cocls::', r'std::copy<int const\*, std::front_insert_iterator', r'^void std::swap<cocls::awaiter\*']
 LIBS = ['rt_core.c', 'rt_atomic_seq.c', 'model_mutex.c', 'model_pubsub.c']
 HOOK_LOCK = 'CV_ON_LOCK(m) { extern void c16_on_lock(void *); c16_on_lock((void *)(m)); }'
 HOOK_UNLOCK = 'CV_ON_UNLOCK(m) { extern void c16_on_unlock(void *); c16_on_unlock((void *)(m)); }'
 HOOK_REG = 'PS_ON_REG_OTHER(i) { extern void c16_reg_other(cv_i64); c16_reg_other(i); }'
 def rx(sig): return '^' + ''.join('\\' + c if c in '()*&[]{}+?.|' else c for c in sig) + '$'
-def unit(name, alias, sig, extra_names=None, extra_boundary=(), defines=(), spec=None, extra_roots=(), **kw):
+def unit(name, alias, sig, extra_names=None, extra_boundary=(), defines=(), spec=None, extra_roots=(), hooks=True, **kw):
     r = rx(sig)
     nm = {alias: r}; nm.update(extra_names or {})
     d = dict(name=name, driver='c16_pub.cpp', roots=[r] + list(extra_roots), names=nm, types=TYPES, boundary=BOUNDARY + list(extra_boundary), lib=LIBS,
-             spec=spec or ['C16/ps_spec.h', 'C16/h_ps.c'], harness='h_' + name, enforce=alias, defines=[HOOK_REG, HOOK_LOCK, HOOK_UNLOCK] + list(defines),
+             spec=spec or ['C16/ps_spec.h', 'C16/qw_spec.h', 'C16/h_ps.c'], harness='h_' + name, enforce=alias, defines=[HOOK_REG] + ([HOOK_LOCK, HOOK_UNLOCK] if hooks else []) + list(defines),
              under_contract=[sig], timeout=600)
     d.update(kw)
     return d
@@ -42,5 +42,26 @@ UNITS = [
          extra_names={'std_min_il': MIN_IL_RX}),
     unit('kick_lk', 'q_kick_lk', QS + 'kick_lk(%s, std::unique_lock<std::mutex>&)' % SUBP, extra_boundary=[r'std::find_if<'], extra_roots=[KICK_PRED_RX],
          extra_names={'kick_pred': KICK_PRED_RX, 'kick_find_if': r'std::find_if<.*kick_lk'}),
+]
+# ---- locked wrappers of the queue: forwarders over an abstract `_lk` callee
+def fwd(name, alias, sig, callee_alias, callee_sig, **kw):
+    c = rx(callee_sig)
+    return unit(name, alias, sig, extra_names={callee_alias: c}, extra_boundary=[c], hooks=False, **kw)
+LOCKCHK_POS = [] if os.environ.get('C16_LOCKCHECK_POSITION') else ['PS_NO_LOCKCHK 1']
+PUSH_LK_SIG = QS + 'push_lk(std::unique_lock<std::mutex>&, unsigned long)'
+UNITS += [
+    fwd('q_subscribe_pos', 'qw_subscribe_pos', QS + 'subscribe(%s, unsigned long)' % SUBP, 'fw_subscribe_lk_pos', QS + 'subscribe_lk(%s, unsigned long)' % SUBP),
+    fwd('q_subscribe_recent', 'qw_subscribe_recent', QS + 'subscribe(%s)' % SUBP, 'fw_subscribe_lk_recent', QS + 'subscribe_lk(%s)' % SUBP),
+    fwd('q_subscribe_copy', 'qw_subscribe_copy', QS + 'subscribe(unsigned long, %s)' % SUBP, 'fw_subscribe_lk_copy', QS + 'subscribe_lk(unsigned long, %s)' % SUBP),
+    fwd('q_advance', 'qw_advance', QS + 'advance(unsigned long, cocls::subscribtion_type)', 'fw_advance_lk', QS + 'advance_lk(unsigned long, cocls::subscribtion_type)'),
+    fwd('q_advance_suspend', 'qw_advance_suspend', QS + 'advance_suspend(unsigned long, cocls::awaiter*)', 'fw_advance_suspend_lk', QS + 'advance_suspend_lk(unsigned long, cocls::awaiter*)'),
+    fwd('q_leave', 'qw_leave', QS + 'leave(unsigned long)', 'fw_leave_lk', QS + 'leave_lk(unsigned long)'),
+    fwd('q_get_value', 'qw_get_value', QS + 'get_value(unsigned long, cocls::subscribtion_type)', 'fw_get_value_lk', QS + 'get_value_lk(unsigned long, cocls::subscribtion_type)'),
+    fwd('q_kick', 'qw_kick', QS + 'kick(%s)' % SUBP, 'fw_kick_lk', QS + 'kick_lk(%s, std::unique_lock<std::mutex>&)' % SUBP),
+    unit('q_position', 'qw_position', QS + 'position(unsigned long)', hooks=False, defines=LOCKCHK_POS),
+    fwd('q_push_move', 'qw_push_move', QS + 'push(int&&)', 'fw_push_lk', PUSH_LK_SIG),
+    fwd('q_push_copy', 'qw_push_copy', QS + 'push(int const&)', 'fw_push_lk', PUSH_LK_SIG),
+    fwd('q_push_range', 'qw_push_range', 'void ' + QS + 'push<int const*&>(int const*&, int const*&)', 'fw_push_lk', PUSH_LK_SIG),
+    fwd('q_close', 'qw_close', QS + 'close()', 'fw_push_lk', PUSH_LK_SIG),
 ]
 META = dict(level='proof', level_text='TODO', level_note='TODO', technique='TODO', trusted_base=[], assumptions=[], explanation='see level_text')
